@@ -16,6 +16,9 @@ pub struct H {
     /// deterministic mode (C19): every draw of the library is injected from this generator, so that
     /// two builds of the crate see identical randomness
     pub det: Option<rand::rngs::StdRng>,
+    /// when set, unrelated calls into other parts of the library are made before every recorded call (util::noise)
+    pub noisy: bool,
+    noise_ctr: usize,
 }
 
 /// every other string handed to the library is a CLONE of the constructed one (a clone is an equal, independent value)
@@ -43,7 +46,13 @@ fn ns0(s: &str) -> NormalizedString {
 
 impl H {
     pub fn new(tr: Tr) -> H {
-        H { tr, next: 1, honest: false, det: None }
+        H { tr, next: 1, honest: false, det: None, noisy: false, noise_ctr: 0 }
+    }
+    fn maybe_noise(&mut self) {
+        if self.noisy {
+            self.noise_ctr += 1;
+            crate::util::noise(self.noise_ctr);
+        }
     }
     pub fn oid(&mut self) -> u64 {
         self.next += 1;
@@ -74,6 +83,7 @@ impl H {
     }
 
     pub fn register(&mut self, user: &str, pass: &str, salt: Option<&[u8]>) -> Option<(u64, SrpVerifier)> {
+        self.maybe_noise();
         let o = self.oid();
         let (u, p) = (ns(user), ns(pass));
         clear_hooks();
@@ -98,6 +108,7 @@ impl H {
     }
 
     pub fn import(&mut self, user: &str, v: [u8; 32], salt: [u8; 32]) -> (u64, SrpVerifier) {
+        self.maybe_noise();
         let o = self.oid();
         clear_hooks();
         let sv = SrpVerifier::from_database_values(ns(user), v, salt);
@@ -116,6 +127,7 @@ impl H {
     }
 
     pub fn into_proof(&mut self, o: u64, v: SrpVerifier, bkey: Option<&[u8]>) -> Option<(u64, SrpProof)> {
+        self.maybe_noise();
         let o2 = self.oid();
         clear_hooks();
         if let Some(k) = bkey {
@@ -143,6 +155,7 @@ impl H {
 
     /// PublicKey::from_le_bytes
     pub fn pubkey(&mut self, bytes: [u8; 32]) -> Option<PublicKey> {
+        self.maybe_noise();
         clear_hooks();
         let r = guard(|| PublicKey::from_le_bytes(bytes));
         let d = draws();
@@ -170,6 +183,7 @@ impl H {
     #[allow(clippy::too_many_arguments)]
     pub fn client_new(&mut self, user: &str, pass: &str, g: u8, n: [u8; 32], bpub: PublicKey, salt: [u8; 32], akey: Option<&[u8]>)
         -> Option<(u64, SrpClientChallenge)> {
+        self.maybe_noise();
         let o = self.oid();
         let (u, p) = (ns(user), ns(pass));
         clear_hooks();
@@ -198,6 +212,7 @@ impl H {
     }
 
     pub fn into_server(&mut self, o: u64, p: SrpProof, a: PublicKey, m1: [u8; 20]) -> Option<(u64, SrpServer, [u8; 20])> {
+        self.maybe_noise();
         let o2 = self.oid();
         clear_hooks();
         self.det_inject("ReconnectData", 16, false);
@@ -229,6 +244,7 @@ impl H {
     }
 
     pub fn verify_server_proof(&mut self, o: u64, c: SrpClientChallenge, m2: [u8; 20]) -> Option<(u64, SrpClient)> {
+        self.maybe_noise();
         let o2 = self.oid();
         clear_hooks();
         let consumed = o;
@@ -258,6 +274,7 @@ impl H {
     }
 
     pub fn reconnect_values(&mut self, o: u64, c: &SrpClient, schal: [u8; 16], inject_cchal: Option<&[u8]>) -> Option<SrpClientReconnection> {
+        self.maybe_noise();
         clear_hooks();
         if let Some(k) = inject_cchal {
             inject("ReconnectData", k);
@@ -281,6 +298,7 @@ impl H {
     }
 
     pub fn verify_reconnect(&mut self, o: u64, s: &mut SrpServer, cdata: [u8; 16], proof: [u8; 20], note: &str) -> Option<bool> {
+        self.maybe_noise();
         clear_hooks();
         self.det_inject("ReconnectRefresh", 16, false);
         let before = *s.reconnect_challenge_data();
@@ -300,6 +318,33 @@ impl H {
                 None
             }
         }
+    }
+
+    /// n rejected reconnect attempts in a row (pseudo-random data and proofs), recorded as ONE event: how many were
+    /// refused, whether any call panicked, and the challenge on offer afterwards
+    pub fn bulk_reject(&mut self, o: u64, s: &mut SrpServer, n: u32) -> bool {
+        clear_hooks();
+        let mut rejected = 0u32;
+        let mut x: u64 = 0x9E37_79B9_7F4A_7C15 ^ (n as u64);
+        let mut r: Result<(), String> = Ok(());
+        for _ in 0..n {
+            x = x.wrapping_mul(6364136223846793005).wrapping_add(1442695040888963407);
+            let mut cd = [0u8; 16];
+            cd[..8].copy_from_slice(&x.to_le_bytes());
+            let mut pr = [0u8; 20];
+            pr[4..12].copy_from_slice(&x.rotate_left(17).to_le_bytes());
+            self.det_inject("ReconnectRefresh", 16, false);
+            match guard(|| s.verify_reconnection_attempt(cd, pr)) {
+                Ok(false) => rejected += 1,
+                Ok(true) => {}
+                Err(m) => { r = Err(m); break; }
+            }
+            clear_hooks();
+        }
+        let after = *s.reconnect_challenge_data();
+        let res = match &r { Ok(_) => json!({"kind": "ok"}), Err(m) => panic_res(m) };
+        self.tr.ev(json!({"ev": "BulkReject", "o": o, "n": n, "rejected": rejected, "chalAfter": b(&after), "res": res, "draws": []}));
+        r.is_ok()
     }
 
     pub fn clone_event(&mut self, o: u64) -> u64 {
